@@ -56,13 +56,13 @@ LEVEL_TEXT = ('exhaustive over every packable type shape up to the depth bound w
 SUBST = (0x00, 0x01, 0x7F, 0x80, 0xFF)
 SOFT = ('negzero', 'utf8')
 REJECT = {
-    'no-05-prefix': 'UNPACK accepts data without the 05 prefix',
-    'nonminimal': 'UNPACK accepts a non-minimal integer encoding',
-    'truncated': 'UNPACK accepts truncated data / a length prefix longer than the data',
-    'overrun': 'UNPACK accepts an element overrunning its sequence length prefix',
-    'trailing': 'UNPACK accepts trailing bytes',
-    'unknown-prim': 'UNPACK accepts an unknown primitive tag',
-    'unknown-tag': 'UNPACK accepts an unknown node tag',
+    'no-05-prefix': 'accepts data without the 05 prefix',
+    'nonminimal': 'accepts a non-minimal integer encoding',
+    'truncated': 'accepts truncated data / a length prefix longer than the data',
+    'overrun': 'accepts an element overrunning its sequence length prefix',
+    'trailing': 'accepts trailing bytes',
+    'unknown-prim': 'accepts an unknown primitive tag',
+    'unknown-tag': 'accepts an unknown node tag',
 }
 
 
@@ -320,8 +320,12 @@ def norm(t, v):
     return v
 
 
+def has_prim(t, prim):
+    return t[0] == prim or any(has_prim(a, prim) for a in t[1:])
+
+
 def has_lambda(t):
-    return t[0] == 'lambda' or any(has_lambda(a) for a in t[1:])
+    return has_prim(t, 'lambda')
 
 
 def ref_pack(t, v):
@@ -518,6 +522,8 @@ def leaf_class(t, v):
         return f'pair (comb of {comb_len(t)})'
     if p == 'lambda':
         return 'lambda with a PUSH constant of a domain type' if v != norm(t, v) else 'lambda'
+    if p in ('set', 'map') and has_prim(t[1], 'unit'):
+        return 'set / map whose key type holds unit'
     return p
 
 
@@ -564,6 +570,17 @@ def case_of(t, v, check, data=None):
     return c
 
 
+BOTH_UNPACK = 'UNPACK (Type.unpack and the instruction)'
+BOTH_PACK = 'PACK (pack() and the instruction)'
+
+
+def _group(findings, both):
+    """findings: [(path name, problem key, detail)] of the paths that failed.  Two paths failing the same way are one finding."""
+    if len(findings) == 2 and findings[0][1] == findings[1][1]:
+        return [(both, findings[0][1], findings[0][2])]
+    return findings
+
+
 def check_value(t, v, r: Result):
     """(1) + (2) for one value.  Returns the reference packed bytes."""
     ts = T.t_str(t)
@@ -572,22 +589,22 @@ def check_value(t, v, r: Result):
     if len(exp) > 3:
         r.nt((ts, exp))
     a, b = impl_pack(t, v)
-    if a == exp and b == exp:
-        r.out('pack|equal')
-    else:
-        for got, how in ((a, 'pack()'), (b, 'PACK instruction')):
-            if got == exp:
-                continue
-            if isinstance(got, tuple):
-                r.out(f'pack|{got[0]}')
-                r.viol(f'{how} raises: {blame(t, v, fails_pack)}', case_of(t, v, 'pack'), f'{how} of {T.v_str(t, v)} : {ts} -> {got}')
-            else:
-                r.out('pack|differs')
-                r.viol(f'{how} differs from the Tezos bytes: {blame(t, v, fails_pack)}', case_of(t, v, 'pack'),
-                       f'{how} of {T.v_str(t, v)} : {ts} -> {got.hex()}, Tezos packs {exp.hex()}')
+    bad = []
+    for got, how in ((a, 'pack()'), (b, 'the PACK instruction')):
+        if got == exp:
+            r.out('pack|equal')
+        elif isinstance(got, tuple):
+            r.out(f'pack|{got[0]}')
+            bad.append((how, 'raises', f'{how} of {T.v_str(t, v)} : {ts} -> {got}'))
+        else:
+            r.out('pack|differs')
+            bad.append((how, 'differs from the Tezos bytes', f'{how} of {T.v_str(t, v)} : {ts} -> {got.hex()}, Tezos packs {exp.hex()}'))
+    for how, what, detail in _group(bad, BOTH_PACK):
+        r.viol(f'{how} {what}: {blame(t, v, fails_pack)}', case_of(t, v, 'pack'), detail)
     want = ('Some', norm(t, v))
     ua, ub = impl_unpack(t, exp)
-    for got, how in ((ua, 'Type.unpack'), (ub, 'UNPACK instruction')):
+    bad = []
+    for got, how in ((ua, 'Type.unpack'), (ub, 'the UNPACK instruction')):
         r.ev()
         if got == want:
             r.out('roundtrip|Some v')
@@ -595,8 +612,9 @@ def check_value(t, v, r: Result):
         cls = 'None' if got is None else ('malformed' if got[0] == 'malformed' else 'other value')
         r.out(f'roundtrip|{cls}')
         what = {'None': 'gives None for', 'malformed': 'returns a malformed value for', 'other value': 'returns a different value for'}[cls]
-        r.viol(f'{how} {what} PACK v: {blame(t, v, fails_unpack)}', case_of(t, v, 'roundtrip'),
-               f'{how} {ts} 0x{exp.hex()} (= PACK {T.v_str(t, v)}) -> {got}')
+        bad.append((how, what, f'{how} {ts} 0x{exp.hex()} (= PACK {T.v_str(t, v)}) -> {got}'))
+    for how, what, detail in _group(bad, BOTH_UNPACK):
+        r.viol(f'{how} {what} PACK v: {blame(t, v, fails_unpack)}', case_of(t, v, 'roundtrip'), detail)
     return exp
 
 
@@ -611,20 +629,23 @@ def judge_mutant(t, v, kind, data, r: Result, count=True):
     def oc(x):
         return 'None' if x is None else ('Some' if x[0] == 'Some' else 'malformed')
     r.out(f'{kind}|{c[0]}{":" + c[1] if c[0] in ("invalid", "soft") else ""}|{oc(ua)}/{oc(ub)}')
+    paths = ((ua, 'Type.unpack'), (ub, 'the UNPACK instruction'))
     if c[0] == 'invalid':
         r.extra['mutants_must_be_none'] += 1
-        for got, how in ((ua, 'Type.unpack'), (ub, 'UNPACK instruction')):
-            if got is not None:
-                r.viol(f'{REJECT[c[1]]} ({how})', case_of(t, v, 'mutant', data),
-                       f'{how} {ts} 0x{data.hex()} ({kind} mutant of PACK {T.v_str(t, v)}; reference: {c[1]}) -> {got}, must be None')
+        bad = [(how, 'accepts', f'{how} {ts} 0x{data.hex()} ({kind} mutant of PACK {T.v_str(t, v)}; reference: {c[1]}) -> {got}, must be None')
+               for got, how in paths if got is not None]
+        for how, _, detail in _group(bad, BOTH_UNPACK):
+            r.viol(f'{how}: {REJECT[c[1]]}', case_of(t, v, 'mutant', data), detail)
     elif c[0] == 'canonical':
         r.extra['mutants_must_be_some'] += 1
         want = ('Some', c[1])
-        for got, how in ((ua, 'Type.unpack'), (ub, 'UNPACK instruction')):
+        bad = []
+        for got, how in paths:
             if got != want:
-                cls = 'gives None for' if got is None else ('returns a malformed value for' if got[0] == 'malformed' else 'returns a different value for')
-                r.viol(f'{how} {cls} canonical packed bytes: {blame(t, c[1], fails_unpack)}', case_of(t, v, 'mutant', data),
-                       f'{how} {ts} 0x{data.hex()} -> {got}; these are the canonical bytes of {T.v_str(t, c[1])}')
+                what = 'gives None for' if got is None else ('returns a malformed value for' if got[0] == 'malformed' else 'returns a different value for')
+                bad.append((how, what, f'{how} {ts} 0x{data.hex()} -> {got}; these are the canonical bytes of {T.v_str(t, c[1])}'))
+        for how, what, detail in _group(bad, BOTH_UNPACK):
+            r.viol(f'{how} {what} canonical packed bytes: {blame(t, c[1], fails_unpack)}', case_of(t, v, 'mutant', data), detail)
     else:
         r.no_verdict += 1
         r.extra['mutants_no_verdict_' + c[0]] += 1
